@@ -407,6 +407,14 @@ def gen_cases(ctx, rng, n_pairs, n_unary, n_full, n_near):
         cases.append(Case('CU', g, family='coverage-touch', label='gaps-touching-at-vertices'))
         if rng.random() < 0.3:
             cases.append(Case('UU', ('GC', [('PG', c) for c in cells]), family='coverage-touch', label='gaps-touching-at-vertices'))
+    # notches / thin holes sticking out through the top or bottom of a small clip box (RingClipper emits flat caps on the box edge)
+    for i in range(max(10, n_pairs // 4)):
+        A, B, lab = L.clip_notch_case(rng)
+        for kk in ('INT', 'DIF'):
+            cases.append(Case(kk, A, B, family='clip-notch', label=lab))
+            cases.append(Case(kk, B, A, family='clip-notch', label=lab + '/swap'))
+        if rng.random() < 0.3:
+            cases.append(Case(rng.choice(['UNI', 'SYM']), A, B, family='clip-notch', label=lab))
     # unary calls
     for i in range(n_unary):
         k = rng.random()
